@@ -524,7 +524,10 @@ fn build_input_core<'a>(g: &Grammar, rule: &str, src: &mut Src<'a>, cfg: &InputC
         // a long periodic input: the derivation repeated (closures, caches and error bookkeeping over many positions)
         // rarely a very long one (hundreds of iterations: counters, caches, stack use)
         let very_long = src.chance(24);
-        let n = if very_long { src.range(60, 400) } else { src.range(2, 8) };
+        // and of those a quarter "ultra long": more than a thousand repetitions (tables, counters and per-position state
+        // sized for "reasonable" inputs)
+        let ultra = very_long && src.chance(16);
+        let n = if ultra { src.range(1030, 2100) } else if very_long { src.range(60, 400) } else { src.range(2, 8) };
         let sep = *src.choose(&["", " ", ",", ";"]);
         let mut long = String::new();
         for i in 0..n {
@@ -533,7 +536,8 @@ fn build_input_core<'a>(g: &Grammar, rule: &str, src: &mut Src<'a>, cfg: &InputC
             }
             long.push_str(&out);
         }
-        let cap = if very_long { cfg.max_len * 12 } else { cfg.max_len };
+        // (left-nested trees are cloned once per growth step: quadratic, so "ultra" stays below 2600 bytes)
+        let cap = if ultra { 2600 } else if very_long { cfg.max_len * 12 } else { cfg.max_len };
         return (clip(long, cap), InputKind::Derived);
     }
     if mode == 0 {
